@@ -361,7 +361,16 @@ func (w *World) loop(first *Task) {
 // runnable. Returns nil when the world ends (deadlock / stop).
 func (w *World) pick() *Task {
 	var runnable []*Task
+	idle := 0
 	for {
+		// every task blocked while periodic timers keep firing (a ticker whose
+		// owner is stuck elsewhere): the clock would advance forever. After two
+		// million consecutive timer-only rounds this is reported as what it is.
+		if idle++; idle > 2000000 {
+			w.recordStuck()
+			w.stop(OutDeadlock, "no runnable task; only periodic timers keep firing")
+			return nil
+		}
 		w.fireTimers()
 		if w.stopping {
 			return nil
